@@ -336,6 +336,7 @@ func (e *functionEntry) resolveArgs(arguments []interface{}) ([]interface{}, err
 			if err != nil {
 				return nil, err
 			}
+			arguments[i] = toGenericSlice(userArg)
 		}
 		return arguments, nil
 	}
@@ -350,8 +351,24 @@ func (e *functionEntry) resolveArgs(arguments []interface{}) ([]interface{}, err
 		if err := spec.typeCheck(userArg); err != nil {
 			return nil, err
 		}
+		arguments[i] = toGenericSlice(userArg)
 	}
 	return arguments, nil
+}
+
+// toGenericSlice converts a typed slice (for example []string or []*T), which
+// the "array" type check accepts, into the []interface{} that the function
+// handlers operate on. Any other value is returned unchanged.
+func toGenericSlice(arg interface{}) interface{} {
+	if _, ok := arg.([]interface{}); ok || !isSliceType(arg) {
+		return arg
+	}
+	v := reflect.ValueOf(arg)
+	generic := make([]interface{}, v.Len())
+	for i := range generic {
+		generic[i] = reflectInterface(v.Index(i))
+	}
+	return generic
 }
 
 func (a *argSpec) typeCheck(arg interface{}) error {
